@@ -223,6 +223,7 @@ func (fr *frame) loopHeader(li *loopInfo, b *ssa.BasicBlock, st *State) *State {
 	}
 	// 1. invariants hold on entry
 	env := fr.loopEnv(li, st, entry)
+	env.entry = st
 	for idx, cl := range spec.Invariants {
 		name := cl.Name
 		if name == "" {
@@ -298,6 +299,7 @@ func (fr *frame) loopHeader(li *loopInfo, b *ssa.BasicBlock, st *State) *State {
 	// map range: visited keys are in the domain
 	// 4. assume invariants
 	env2 := fr.loopEnv(li, st, hav)
+	env2.entry = pre
 	for _, cl := range spec.Invariants {
 		t, err := env2.evalBool(cl.Expr)
 		if err != nil {
@@ -361,6 +363,7 @@ func (fr *frame) checkLoopBack(li *loopInfo, from *ssa.BasicBlock, st *State, co
 		spec = &LoopSpec{}
 	}
 	env := fr.loopEnv(li, st, back)
+	env.entry = li.entrySt
 	for k, cl := range spec.Invariants {
 		name := cl.Name
 		if name == "" {
